@@ -65,6 +65,10 @@ type Profile struct {
 type replica struct {
 	inst *rctfe.Instance
 	skew time.Duration
+	// a sibling log only (C01): another log served by the same process
+	prefix string
+	key    *oracle.Key
+	be     *Backend
 }
 
 // servedSTH is one STH a client received.
@@ -96,6 +100,7 @@ type World struct {
 	sths      []*servedSTH
 	opSeq     int // global event sequence for real-time order
 	x         *extState
+	sib       *replica // C01: a second log in the same process, with its own key, tree and backend
 	legacy    *replica // C14: a default-mode instance on the same backend (entries stored with their full chain)
 	rootsFile string
 	started   int
@@ -230,6 +235,26 @@ func (w *World) build() {
 		}
 		w.legacy = &replica{inst: inst}
 	}
+	if w.mode.Prop == "C01" && !w.mode.External && t.Chance(1, 2) {
+		// one process usually serves several logs (ct_server with several LogConfigs): the same chain may reach
+		// two of them within one millisecond, and each must answer with its own id and its own signature
+		k := oracle.Keys(p.LogKeyKind)
+		sk := k[0]
+		if sk == w.logKey {
+			sk = k[1]
+		}
+		if t.Chance(1, 2) {
+			sk = oracle.Keys(map[string]string{"p256": "rsa2048", "rsa2048": "p256"}[p.LogKeyKind])[0]
+		}
+		sb := &Backend{S: s, Log: reflog.New(7003, epoch.UnixNano()), Name: "be2"}
+		spriv, spub := LogKey(sk)
+		cfg := &configpb.LogConfig{LogId: 7003, Prefix: "sib", RootsPemFile: []string{rootsFile}, PrivateKey: spriv, PublicKey: spub}
+		inst, err := NewInstance(InstanceParams{Cfg: cfg, Backend: sb, Deadline: p.Deadline, Mask: p.Mask, QuotaUsers: p.Quota})
+		if err != nil {
+			panic("harness: cannot build sibling log: " + err.Error())
+		}
+		w.sib = &replica{inst: inst, prefix: "/sib", key: sk, be: sb}
+	}
 	if w.mode.Foreign && t.Chance(1, 3) {
 		w.storeForeignLeaves(epoch)
 	}
@@ -343,6 +368,10 @@ func (w *World) genSubmit() *Op {
 	if w.legacy != nil && t.Chance(1, 3) {
 		op.Legacy = true
 		w.s.Probe("c14.legacy-submit")
+	}
+	if w.sib != nil && t.Chance(2, 5) {
+		op.Sibling = true
+		w.s.Probe("c01.sibling-submit")
 	}
 	return op
 }
@@ -548,11 +577,15 @@ func (w *World) launch(op *Op) {
 	if op.Legacy {
 		rep = w.legacy
 	}
+	prefix := w.prefix
+	if op.Sibling {
+		rep, prefix = w.sib, w.sib.prefix
+	}
 	w.s.Go(func() {
 		if w.ls != nil {
 			w.ls.RT.SetName(op.Party) // the request's goroutine and whatever it spawns inside trillian/ctfe descend from it
 		}
-		Serve(w.s, rep.inst, w.prefix, op, w.ctx)
+		Serve(w.s, rep.inst, prefix, op, w.ctx)
 	})
 }
 
@@ -653,7 +686,7 @@ func (w *World) Options(s *kernel.Sim) []kernel.Option {
 		if w.started < w.prof.MaxOps && w.active < w.prof.Conc {
 			opts = append(opts, kernel.Option{Key: "start op", Weight: 8, Apply: func() {
 				op := w.nextOp()
-				s.Logf("op%03d %s %s %s?%s bad=%q rep=%d", op.ID, op.Kind, op.Method, op.Path, op.Query, op.Bad, op.Replica)
+				s.Logf("op%03d %s %s %s?%s bad=%q rep=%d sibling=%v", op.ID, op.Kind, op.Method, op.Path, op.Query, op.Bad, op.Replica, op.Sibling)
 				w.launch(op)
 			}})
 		}
